@@ -7,14 +7,50 @@ from props import c02_gen
 ID = "C02"
 LEAN_MODULES = ["AwsVerif.Props.C02"]
 COMPONENT = "hashtable"
-HARNESS = dict(name="hashtable", flavour="asan")
+
+
+def _public_functions(path):
+    """names of the external function definitions of a C file (top-level `type name(...) {`, not static)"""
+    try:
+        src = c02_gen.strip_c_comments(open(path).read())
+    except OSError:
+        return []
+    src = re.sub(r'"(?:\\.|[^"\\])*"', '""', src)
+    src = re.sub(r"^[ \t]*#.*?(?<!\\)$", "", src, flags=re.M)      # preprocessor lines (single-line ones)
+    names, depth, head = [], 0, ""
+    for ch in src:
+        if ch == "{":
+            if depth == 0:
+                h = head.strip()
+                m = re.search(r"([A-Za-z_]\w*)\s*\(", h)
+                if m and "=" not in h.split("(")[0] and not re.search(r"\b(static|typedef)\b", h.split("(")[0]) \
+                        and not re.match(r"(struct|enum|union)\b[^()]*$", h):
+                    names.append(m.group(1))
+                head = ""
+            depth += 1
+        elif ch == "}":
+            depth -= 1
+            if depth == 0:
+                head = ""
+        elif depth == 0:
+            head = "" if ch == ";" else head + ch
+    return sorted(set(names))
+
+
+_HT_C = os.path.join(cbuild.REPO, "source", "hash_table.c")
+# second build configuration of the content hashes: source/hash_table.c (which textually includes lookup3.inl) compiled
+# again with -DVALGRIND, every external function it defines renamed vg_<name> so that both configurations live in one binary
+HARNESS = dict(name="hashtable", flavour="asan",
+               extra_srcs=[(_HT_C, ["-DVALGRIND", "-DUSE_SIMD_ENCODING"] + [f"-D{n}=vg_{n}" for n in _public_functions(_HT_C)],
+                            "hash_table_valgrind")])
 # iteration order, slot layout and growth points are conformance (W); the reference-dict oracle below checks every P line
 # (results, contents, counts, destructor multisets, visit-exactly-once) and alone decides what is a concrete violation
 P_DIFF_CONCRETE = False
 TIMEOUT = 900
 TRUSTED = ["hand model lean/AwsVerif/Model/Lookup3.lean (byte-wise hashlittle2 + interpreter of the extracted path tables; tied by the "
            "W streams `hl2` / `hl2s` at all four alignments with varying bytes behind the key)",
-           "props/c02_gen.py lookup3_paths(): extraction of the three hashlittle2 paths (non-VALGRIND branch) into term tables; any "
+           "props/c02_gen.py lookup3_paths(): extraction of the three hashlittle2 paths (non-VALGRIND branch, and the -DVALGRIND tail of "
+           "the 32-bit path as l3Tail32V) into term tables; any "
            "statement outside the modelled shape is a GenError",
            "hand model lean/AwsVerif/Model/HashTable.lean (tied to source/hash_table.c by this correspondence run only: "
            "P lines = results/contents/destructor multisets, W lines = full slot dump through private/hash_table_impl.h)",
@@ -231,6 +267,9 @@ def gen_lookup3_cases(rng, nrandom):
         ops.append(f"hptr {rng.getrandbits(64):x}")
         ops.append(f"hcomb {rng.choice(words + [rng.getrandbits(64)]):x} {rng.choice(words + [rng.getrandbits(64)]):x}")
     out.append(Case(ops, {"kind": "lookup3"}))
+    # the same programs against the -DVALGRIND build of the hash functions (ops with suffix v)
+    for c in list(out):
+        out.append(Case([re.sub(r"^(hl2s|hl2|hptr|hcomb) ", r"\1v ", o) for o in c.ops], {"kind": "lookup3", "config": "VALGRIND"}))
     return out
 
 
@@ -356,19 +395,19 @@ def oracle(case, lines):
         o = tk[0]
         if o == "hash":
             continue
-        if o in ("hashic", "hptr", "hcomb"):
+        if o in ("hashic", "hptr", "hcomb", "hptrv", "hcombv"):
             continue    # W only
-        if o == "hl2s":
+        if o in ("hl2s", "hl2sv"):
             l = take()
-            if l != "P hl2s consistent=1":
+            if l != f"P {o} consistent=1":
                 errs.append(f"{op}: equal keys hash differently depending on the bytes that follow them in memory / on their "
-                            f"alignment: `{l}`")
+                            f"alignment{' (library built with -DVALGRIND)' if o.endswith('v') else ''}: `{l}`")
             continue
-        if o == "hl2":
+        if o in ("hl2", "hl2v"):
             l = take()
-            if l != "P hl2 consistent=1":
+            if l != f"P {o} consistent=1":
                 errs.append(f"{op}: the same bytes hash differently depending on where they are stored "
-                            f"(alignment / string vs cursor vs C string): `{l}`")
+                            f"(alignment / string vs cursor vs C string{'; library built with -DVALGRIND' if o.endswith('v') else ''}): `{l}`")
             continue
         if o == "eqic":
             a, b = (bytes.fromhex(x) if x != "-" else b"" for x in tk[1:3])
@@ -651,7 +690,9 @@ MANIFEST = dict(
           "lookup3.inl, reproducing lookup3's published self-test values) are functions of the bytes only, and the 32-bit-load "
           "and 16-bit-load paths of hashlittle2 (block adds, tail switch with its masks and shifts extracted from lookup3.inl "
           "into term tables on every run) compute that byte-wise function for every key, every address and every content of "
-          "the memory behind the key. Tie to /repo: "
+          "the memory behind the key - in both build configurations of lookup3.inl (default masked over-read tail, and the "
+          "byte-exact tail compiled under -DVALGRIND; both extracted, both proved, both run: source/hash_table.c is compiled "
+          "a second time with -DVALGRIND into the same harness, ops hl2v/hl2sv/hptrv/hcombv). Tie to /repo: "
           "correspondence run of the compiled model against hash_table.c rebuilt from the working tree (ASan/UBSan): results, "
           "sorted contents, destructor multisets (P), full slot dump through private/hash_table_impl.h and iterator slot/limit "
           "(W), an in-harness monitor of the invariant on the C slots, a content-hash consistency monitor, and a Python "
